@@ -79,6 +79,12 @@ fn flat_name(env: &Env, n: &str, idx: &[IEx]) -> Option<String> {
     let parts: Option<Vec<String>> = idx.iter().map(|i| match i { IEx::Var(x) if lookup(env, x).is_none() => Some(x.clone()), other => show_idx(&ieval(env, other)?) }).collect();
     Some(format!("{}_{}", n, parts?.join("_")))
 }
+/// the flattened name as the hand-unrolled TEXT has to spell it: a negative index needs braces (`r_{-2}`)
+fn flat_name_text(env: &Env, n: &str, idx: &[IEx]) -> Option<String> {
+    if idx.is_empty() { return Some(n.to_string()); }
+    let parts: Option<Vec<String>> = idx.iter().map(|i| match i { IEx::Var(x) if lookup(env, x).is_none() => Some(x.clone()), other => show_idx(&ieval(env, other)?).map(|t| if t.starts_with('-') { format!("{{{}}}", t) } else { t }) }).collect();
+    Some(format!("{}_{}", n, parts?.join("_")))
+}
 fn fnum(x: f64) -> String { if x < 0.0 { format!("(-{})", -x) } else { format!("{}", x) } }
 /// hand-unrolled text of an expression
 fn unroll(p: &PExp, env: &Env) -> Option<String> {
@@ -86,7 +92,7 @@ fn unroll(p: &PExp, env: &Env) -> Option<String> {
         PExp::Num(x) => fnum(*x),
         PExp::Val(e) => match ieval(env, e)? { DVal::Num(x) => fnum(x), _ => return None },
         PExp::Dec(n) => n.clone(),
-        PExp::Comp(n, idx) => flat_name(env, n, idx)?,
+        PExp::Comp(n, idx) => flat_name_text(env, n, idx)?,
         PExp::Bin(op, a, c) => format!("({} {} {})", unroll(a, env)?, op, unroll(c, env)?),
         PExp::Neg(a) => format!("(-{})", unroll(a, env)?), PExp::Not(a) => format!("(not {})", unroll(a, env)?), PExp::Abs(a) => format!("abs {{ {} }}", unroll(a, env)?),
         PExp::Block(k, l) => aggregate_text(*k, l.iter().map(|x| unroll(x, env)).collect::<Option<Vec<_>>>()?)?,
@@ -114,11 +120,11 @@ fn type_text(env: &Env, t: &PType) -> Option<String> {
 fn unrolled_text(p: &Prog) -> Option<String> {
     let mut cons = Vec::new();
     for c in &p.cons { for e in iter_envs(&c.iters, &p.env)? {
-        let name = if c.name.is_empty() { String::new() } else { format!("{}: ", flat_name(&e, &c.name, &c.idx)?) };
+        let name = if c.name.is_empty() { String::new() } else { format!("{}: ", flat_name_text(&e, &c.name, &c.idx)?) };
         cons.push(if c.assertion { format!("    {}{}", name, unroll(&c.lhs, &e)?) } else { format!("    {}{} {} {}", name, unroll(&c.lhs, &e)?, c.cmp, unroll(&c.rhs, &e)?) });
     } }
     let mut decls = Vec::new();
-    for d in &p.decls { for e in iter_envs(&d.iters, &p.env)? { for (n, idx) in &d.vars { decls.push(format!("    {} as {}", flat_name(&e, n, idx)?, type_text(&e, &d.ty)?)); } } }
+    for d in &p.decls { for e in iter_envs(&d.iters, &p.env)? { for (n, idx) in &d.vars { decls.push(format!("    {} as {}", flat_name_text(&e, n, idx)?, type_text(&e, &d.ty)?)); } } }
     Some(format!("{} {}\ns.t.\n{}\ndefine\n{}", p.dir, unroll(&p.obj, &p.env)?, cons.join("\n"), decls.join("\n")))
 }
 
@@ -203,11 +209,18 @@ fn gen_prog(r: &mut Rng) -> Prog {
         PDecl { vars: vec![("q".into(), vec![v("i")])], ty: PType::Bool, iters: vec![(one("i"), xs_range.clone())] },
         PDecl { vars: vec![("y".into(), vec![v("i"), v("j")])], ty: PType::NonNeg(None, Some(num(20.0))), iters: vec![(one("i"), range(num(0.0), len(v("M")), false)), (one("j"), range(num(0.0), len(at(v("M"), v("i"))), false))] },
         PDecl { vars: vec![("w".into(), vec![v("u")])], ty: PType::Real(Some(num(0.0)), Some(num(9.0))), iters: vec![(one("u"), IEx::Nodes(Box::new(v("G"))))] },
+        // negative indexes: r_t over a range with a negative start (inclusive end), s_t from -1 so that an enumerate position minus one is declared
+        PDecl { vars: vec![("r".into(), vec![v("t")])], ty: PType::Real(Some(num(-5.0)), Some(num(5.0))), iters: vec![(one("t"), range(ib('-', num(0.0), v("n")), v("n"), true))] },
+        PDecl { vars: vec![("neg".into(), vec![v("t")])], ty: PType::Real(Some(num(-5.0)), Some(num(5.0))), iters: vec![(one("t"), range(num(-2.0), num(1.0), true))] },
+        PDecl { vars: vec![("s".into(), vec![v("t")])], ty: PType::NonNeg(None, Some(num(30.0))), iters: vec![(one("t"), range(num(-1.0), len(v("A")), false))] },
         PDecl { vars: vec![("k".into(), vec![v("i")]), ("h".into(), vec![v("i"), v("i")])], ty: PType::Real(Some(num(-5.0)), Some(num(5.0))), iters: vec![(one("i"), range(v("z"), ib('+', v("n"), num(1.0)), true))] },
     ];
     let scoped = |r: &mut Rng| -> PExp {
         let kind_num = *r.pick(&[AK::Sum, AK::Sum, AK::Sum, AK::Max, AK::Min, AK::Avg]);
-        match r.below(12) {
+        match r.below(15) {
+            12 => PExp::Scoped(kind_num, vec![(one("t"), range(ib('-', num(0.0), v("n")), v("n"), true))], Box::new(pb("*", PExp::Val(ib('+', v("t"), num(3.0))), comp("r", vec![v("t")])))),
+            13 => PExp::Scoped(AK::Sum, vec![(tup(&["a", "i"]), IEx::Enumerate(Box::new(v("A"))))], Box::new(pb("*", PExp::Val(v("a")), pb("-", comp("s", vec![v("i")]), comp("s", vec![ib('-', v("i"), num(1.0))]))))),
+            14 => PExp::Scoped(AK::Sum, vec![(one("t"), range(num(-2.0), num(1.0), true))], Box::new(pb("*", PExp::Val(ib('+', v("t"), num(4.0))), comp("neg", vec![v("t")])))),
             0 => PExp::Scoped(kind_num, vec![(one("i"), range(num(0.0), len(v("A")), false))], Box::new(pb("*", PExp::Val(at(v("A"), v("i"))), comp("x", vec![v("i")])))),
             1 => PExp::Scoped(kind_num, vec![(tup(&["a", "i"]), IEx::Enumerate(Box::new(v("A"))))], Box::new(pb("*", PExp::Val(v("a")), comp("x", vec![v("i")])))),
             2 => PExp::Scoped(kind_num, vec![(one("i"), range(num(0.0), len(v("M")), false)), (one("j"), range(num(0.0), len(at(v("M"), v("i"))), false))], Box::new(pb("*", PExp::Val(at(at(v("M"), v("i")), v("j"))), comp("y", vec![v("i"), v("j")])))),
@@ -226,7 +239,9 @@ fn gen_prog(r: &mut Rng) -> Prog {
     let logic = |r: &mut Rng| -> PExp { let k = *r.pick(&[AK::All, AK::Any, AK::Xor]); match r.below(3) { 0 => PExp::Scoped(k, vec![(one("i"), range(num(0.0), len(v("A")), true))], Box::new(comp("q", vec![v("i")]))), 1 => PExp::Block(k, vec![comp("q", vec![num(0.0)]), PExp::Not(Box::new(comp("q", vec![len(v("A"))])))]), _ => pb("implies", comp("q", vec![num(0.0)]), PExp::Scoped(k, vec![(tup(&["a", "i"]), IEx::Enumerate(Box::new(v("A"))))], Box::new(comp("q", vec![v("i")])))) } };
     let mut cons = Vec::new();
     for ci in 0..1 + r.below(4) {
-        cons.push(match r.below(7) {
+        cons.push(match r.below(9) {
+            7 => PCon { name: "lag".into(), idx: vec![v("t")], lhs: pb("-", comp("r", vec![v("t")]), comp("r", vec![ib('+', v("t"), num(1.0))])), cmp: "<=", rhs: PExp::Num(4.0), assertion: false, iters: vec![(one("t"), range(ib('-', num(0.0), v("n")), v("n"), false))] },
+            8 => PCon { name: "ramp".into(), idx: vec![v("i")], lhs: pb("-", comp("s", vec![v("i")]), comp("s", vec![ib('-', v("i"), num(1.0))])), cmp: "<=", rhs: PExp::Val(v("a")), assertion: false, iters: vec![(tup(&["a", "i"]), IEx::Enumerate(Box::new(v("A"))))] },
             0 => PCon { name: "c".into(), idx: vec![v("s")], lhs: pb("+", comp("x", vec![v("s")]), scoped(r)), cmp: "<=", rhs: PExp::Val(ib('+', v("s"), num(10.0))), assertion: false, iters: vec![(one("s"), range(num(0.0), len(v("A")), true))] },
             1 => PCon { name: "d".into(), idx: vec![v("i"), v("j")], lhs: comp("y", vec![v("i"), v("j")]), cmp: "<=", rhs: PExp::Val(at(at(v("M"), v("i")), v("j"))), assertion: false, iters: vec![(one("i"), range(num(0.0), len(v("M")), false)), (one("j"), range(num(0.0), len(at(v("M"), v("i"))), false))] },
             2 => PCon { name: "g".into(), idx: vec![v("u")], lhs: pb("+", comp("w", vec![v("u")]), PExp::Scoped(AK::Sum, vec![(tup(&["_", "p"]), IEx::NeighEdges(Box::new(v("u"))))], Box::new(comp("w", vec![v("p")])))), cmp: ">=", rhs: PExp::Num(1.0), assertion: false, iters: vec![(one("u"), IEx::Nodes(Box::new(v("G"))))] },
